@@ -13,7 +13,7 @@ mkdir -p $W
   cp $REPO/Cargo.lock $W/Cargo.lock 2>/dev/null || true
   cd $W
   CARGO_NET_OFFLINE=true cargo build --offline -q 2>$W/build.log || { tail -30 $W/build.log >&2; exit 3; }
-  cp $W/target/debug/witness $W/witness.bin
+  cp $W/target/debug/witness $W/witness.bin.$$ && mv -f $W/witness.bin.$$ $W/witness.bin
 ) 9>$W/.lock
 case "$REPO" in
   /repo) exec $W/witness.bin "$@" ;;
